@@ -54,6 +54,8 @@ pub struct ThreadInfo {
     pub last_args: (u64, u64),
     pred: Option<Pred>,
     last_scheduled: u64,
+    /// kernel thread id (to tell a starved thread from a blocked one)
+    os_tid: i32,
 }
 
 #[derive(Clone, Debug)]
@@ -107,7 +109,7 @@ impl Sched {
     pub fn new(prefix: Vec<usize>, horizon: usize, background: &[&'static str]) -> Arc<Sched> {
         let threads = background
             .iter()
-            .map(|role| ThreadInfo { role, app: false, status: Status::NotStarted, last_point: "unborn", last_args: (0, 0), pred: None, last_scheduled: 0 })
+            .map(|role| ThreadInfo { role, app: false, status: Status::NotStarted, last_point: "unborn", last_args: (0, 0), pred: None, os_tid: 0, last_scheduled: 0 })
             .collect();
         Arc::new(Sched {
             m: Mutex::new(State {
@@ -148,6 +150,7 @@ impl Sched {
             if let Some(tid) = st.threads.iter().position(|t| t.role == role && t.status == Status::NotStarted) {
                 st.threads[tid].status = Status::Running;
                 st.threads[tid].last_point = "start";
+                st.threads[tid].os_tid = unsafe { libc::gettid() };
                 MY_TID.with(|c| c.set(Some(tid)));
                 self.cv.notify_all();
                 return tid;
@@ -162,6 +165,7 @@ impl Sched {
             last_args: (0, 0),
             pred: None,
             last_scheduled: 0,
+            os_tid: unsafe { libc::gettid() },
         });
         MY_TID.with(|c| c.set(Some(tid)));
         self.cv.notify_all();
@@ -231,9 +235,26 @@ impl Sched {
         }
         if enabled.is_empty() {
             let deadline = Instant::now() + Duration::from_millis(200);
-            while enabled.is_empty() && Instant::now() < deadline {
+            // on a loaded machine a thread that has left the scheduler (finished, or between
+            // two hooks in free code) may simply not have had the CPU yet: as long as one of
+            // this execution's threads is runnable, "nobody enabled" is not final
+            let hard = Instant::now() + Duration::from_secs(8);
+            loop {
                 std::thread::sleep(Duration::from_micros(50));
                 enabled = Self::enabled(st);
+                if !enabled.is_empty() {
+                    break;
+                }
+                let now = Instant::now();
+                if now < deadline {
+                    continue;
+                }
+                let me = unsafe { libc::gettid() };
+                let lagging = now < hard && st.threads.iter().any(|t| t.os_tid != me && os_thread_runnable(t.os_tid));
+                if !lagging {
+                    break;
+                }
+                std::thread::sleep(Duration::from_millis(2));
             }
         }
         if enabled.is_empty() {
@@ -394,6 +415,14 @@ impl Sched {
                 return o;
             }
             if st.last_progress.elapsed() > stall {
+                // A token holder that is runnable but not getting the CPU (a loaded machine) is
+                // starved, not stuck: only a thread blocked in the kernel counts, unless the
+                // silence lasts for a minute.
+                let starved = st.token.is_some_and(|t| os_thread_runnable(st.threads[t].os_tid));
+                if starved && st.last_progress.elapsed() < Duration::from_secs(60) {
+                    self.cv.wait_for(&mut st, Duration::from_millis(20));
+                    continue;
+                }
                 let running = st.token.map(|t| format!("T{t}({}) last seen at {}", st.threads[t].role, st.threads[t].last_point)).unwrap_or_else(|| "nobody".into());
                 let o = Outcome::Stuck(format!("no scheduling progress for {:?}; token holder: {running}", stall));
                 st.outcome = Some(o.clone());
@@ -543,4 +572,14 @@ pub fn alternatives(trace: &[Decision], prefix_len: usize, bound: u32) -> Vec<Ve
         }
     }
     out
+}
+
+/// Is the kernel thread in state R (running or waiting for a CPU)?
+fn os_thread_runnable(os_tid: i32) -> bool {
+    if os_tid <= 0 {
+        return false;
+    }
+    let Ok(stat) = std::fs::read_to_string(format!("/proc/self/task/{os_tid}/stat")) else { return false };
+    // "<pid> (<comm>) <state> ..." — the command may contain spaces and parentheses
+    stat.rfind(')').and_then(|i| stat[i + 1..].split_whitespace().next().map(|s| s == "R")).unwrap_or(false)
 }
